@@ -52,9 +52,14 @@ def main():
     # the same two flights with every input in a range where no refusal or corner case is possible: a counterexample
     # found in the sign abstraction then replays on the real code whatever values the solver picked for the products
     jobs2 += [dict(npts=(2, 2, 2), caps=(3, 2), deadline_s=500 if tier == 'quick' else 2500, first_may_fail=False, fail_only_at=None, regime='comfortable')]
+    # the second mission between the same airports with the same aircraft type as the first (a schedule repeating a
+    # city pair) but with its own load factor and performance answers: anything remembered per route would show here
+    jobs2 += [dict(npts=(2, 2, 2), caps=(3, 2), deadline_s=500 if tier == 'quick' else 2500, first_may_fail=False, fail_only_at=None, regime='comfortable', same_route=True)]
+    if tier != 'quick':
+        jobs2 += [dict(npts=(2, 2, 2), caps=(3, 2), deadline_s=2500, first_may_fail=f is not None, fail_only_at=f, same_route=True) for f in (None, [0], [4])]
     if tier != 'quick':
         jobs2 += [dict(npts=(3, 2, 2), caps=(2, 2), deadline_s=2500, first_may_fail=False, fail_only_at=None)]
-    rep.bounds['legacy_builder_two_flights'] = 'flight 1 (symbolic mission and model, succeeding or refused by the model at call %s) then flight 2 (another symbolic mission/model) on the same real LegacyBuilder, compared with flight 2 on a fresh builder; 2 points per phase' % [f for f in fails]
+    rep.bounds['legacy_builder_two_flights'] = 'flight 1 (symbolic mission and model, succeeding or refused by the model at call %s) then flight 2 (another symbolic mission/model, or a mission between the same airports with the same aircraft type and its own load factor and model answers) on the same real LegacyBuilder, compared with flight 2 on a fresh builder; 2 points per phase' % [f for f in fails]
     rep.functions += common.fn_fingerprint(c02.mods()['LG'].LegacyBuilder.calc_starting_mass, c02.mods()['LG'].LegacyBuilder._fly_level_change, c02.mods()['LG'].LegacyBuilder.fly_cruise, c02.mods()['LG'].LegacyContext.__init__)
     for (status, o2), job in zip(common.pmap(c02.run_two_flights, jobs2), jobs2):
         if status != 'ok':
